@@ -350,8 +350,14 @@ class Model(core.BfsModel):
             w.overlays = []
 
     def enabled(self, w: World):  # noqa: ANN201
-        if w.viol:
-            return []  # reference and implementation already disagree: what follows is noise
+        out = self._enabled(w)
+        # A state in which reference and implementation already disagree (now, or in what its pending timers will do)
+        # is not expanded: everything after it is a consequence.  ``w`` is a scratch world (core disposes it).
+        if out and (w.viol or self.state_violations(w)):
+            return []
+        return out
+
+    def _enabled(self, w: World) -> list:
         busy = w.loop.has_work()
         nt = w.loop.next_timer()
         can_tick = (not busy) and nt is not None and nt - w.loop.time() <= HORIZON
@@ -513,24 +519,23 @@ class Model(core.BfsModel):
             prefix, cls = self.prefixes[p_i], self.classes[p_i]
             holder = ref.holder(i)
             want = holder is not None
+            wants = "outstanding" if want else "free"
             got = (rc.has(prefix, number), rc.has(cls, number))
-            if got != (want, want):
-                v.append((f"has-disagrees|{ref.describe(i)}", f"has({prefix!r},{number}) / has(cls) = {got}, but the "
-                          f"identity is {'outstanding (slot %d)' % holder if want else 'not outstanding'} [{tag}]"))
             g = rc.get(prefix, number)
-            if (g is None) != (not want) or (want and g is not w.objs[holder]):
-                v.append((f"get-disagrees|{ref.describe(i)}", f"get({prefix!r},{number}) = {g!r}, expected "
-                          f"{'slot %d' % holder if want else None} [{tag}]"))
+            table_ok = got == (want, want) and (g is w.objs[holder] if want else g is None)
+            if not table_ok:
+                v.append((f"identity-table|want:{wants}", f"has({prefix!r},{number}) / has(cls) = {got}, get() = {g!r}, "
+                          f"but the identity is {'held by the outstanding slot %d' % holder if want else 'free'} "
+                          f"({ref.describe(i)}) [{tag}]"))
             # duplicate guard of the constructor
             try:
                 cls(rc, number, 1.0)
                 refused = False
             except RuntimeError:
                 refused = True
-            if refused != want:
-                v.append((f"ctor-guard|{ref.describe(i)}", f"NumberCache({prefix!r},{number}) "
-                          f"{'refused' if refused else 'accepted'} while the identity is "
-                          f"{'outstanding' if want else 'free'} [{tag}]"))
+            if refused != want and table_ok:
+                v.append((f"ctor-guard|want:{wants}", f"NumberCache({prefix!r},{number}) "
+                          f"{'refused' if refused else 'accepted'} while the identity is {wants} [{tag}]"))
         # RandomNumberCache never picks an identity that is outstanding (its random() is forced onto ours)
         for p_i, prefix in enumerate(self.prefixes):
             numbers = [n for (pp, n) in self.idents[:self.n_ident] if pp == p_i]
@@ -556,8 +561,9 @@ class Model(core.BfsModel):
             taken = {self.idents[i][1] for i in range(self.n_ident)
                      if self.idents[i][0] == p_i and ref.holder(i) is not None}
             if got_n is None or got_n in taken:
-                v.append(("random-number-guard", f"RandomNumberCache({prefix!r}) chose {got_n} while {sorted(taken)} "
-                          f"are outstanding [{tag}]"))
+                v.append(("random-number-guard", f"RandomNumberCache({prefix!r}) "
+                          f"{'raised RuntimeError' if got_n is None else 'chose %d' % got_n} while {sorted(taken)} are "
+                          f"outstanding and random() offers {seq} in turn [{tag}]"))
         # tied futures
         for s in range(len(self.slots)):
             want_f = ref.future_expectation(s)
@@ -594,18 +600,24 @@ class Model(core.BfsModel):
             seams.CLOCK.set(nt)
         else:
             v.append(("runout-cap", "run-out did not reach quiescence"))
-        v.extend((k + "", what + " [run-out]") for k, what in w.viol[start:])
+        v.extend((k, what + " [run-out]") for k, what in w.viol[start:])
+        if v:
+            return v
         v.extend(self.snapshot_checks(w, "run-out"))
+        if v:
+            return v
         for s in range(len(self.slots)):
             if w.ref.state(s) == OUTSTANDING:
                 v.append((f"never-resolved|{w.ref.describe_slot(s)}", f"slot {s} is still outstanding after every "
                           f"timer within {HORIZON}s fired (t={loop.time()}, deadline {w.ref.deadline(s)}) [run-out]"))
         return v
 
+    def state_violations(self, w: World) -> list:
+        """Perturbs w (run-out).  Only the earliest kind of disagreement is reported: the rest follows from it."""
+        return self.snapshot_checks(w, "now") or self.run_out(w)
+
     def check(self, w: World, hist, ev, obs) -> list:  # noqa: ANN001
-        v = list(w.viol[w.last_viol_start:])
-        v.extend(self.snapshot_checks(w, "now"))
-        v.extend(self.run_out(w))
+        v = list(w.viol[w.last_viol_start:]) or self.state_violations(w)
         seen, out = set(), []
         for k, what in v:
             if k not in seen:
